@@ -13,8 +13,11 @@ import (
 	"context"
 	"fmt"
 	"net"
+	"os"
+	"path/filepath"
 	"runtime"
 	"sync/atomic"
+	"syscall"
 	"testing"
 	"time"
 
@@ -398,4 +401,162 @@ func TestVerifC12(t *testing.T) {
 		}
 	}
 	run.Max("max_return_latency_after_cancel_us", maxLat.Microseconds())
+}
+
+// ---------------------------------------------------------------------------
+// Cancellation while the request source itself is blocked: the target list comes from a FIFO
+// or from stdin whose writer has stalled after m lines. Ctrl-C must still end the scan (the
+// stuck reader may be left behind, the scan call may not wait for it).
+
+type c12stallCase struct {
+	Engine string `json:"engine"`  // generic | packet
+	Input  string `json:"input"`   // fifo-ipport | fifo-addr | stdin-addr
+	M      int    `json:"lines_before_the_writer_stalls"`
+	Seed   int64  `json:"seed"`
+}
+
+func c12stalled(run *vlab.Run, dir string, idx int, c c12stallCase) {
+	ctx, cancel := context.WithCancel(context.Background())
+	defer cancel()
+	clock := &rigClock{}
+	var lines []string
+	for i := 0; i < c.M; i++ {
+		if c.Input == "fifo-ipport" {
+			lines = append(lines, fmt.Sprintf("{\"ip\":\"10.7.0.%d\",\"port\":%d}\n", 1+i, 1000+i))
+		} else {
+			lines = append(lines, fmt.Sprintf("{\"ip\":\"10.7.0.%d\"}\n", 1+i))
+		}
+	}
+	release := make(chan struct{})
+	restore := func() {}
+	ipFile := ""
+	switch c.Input {
+	case "stdin-addr":
+		pr, pw, _ := os.Pipe()
+		old := os.Stdin
+		os.Stdin = pr
+		restore = func() { os.Stdin = old; pw.Close(); pr.Close() }
+		ipFile = "-"
+		go func() {
+			for _, l := range lines {
+				pw.Write([]byte(l))
+			}
+			<-release // the writer stalls: no more data, no EOF
+		}()
+	default:
+		ipFile = filepath.Join(dir, fmt.Sprintf("targets-%d.fifo", idx))
+		if err := syscall.Mkfifo(ipFile, 0o600); err != nil {
+			run.Inconclusive("mkfifo: " + err.Error())
+			return
+		}
+		defer os.Remove(ipFile)
+		go func() {
+			w, err := os.OpenFile(ipFile, os.O_WRONLY, 0)
+			if err != nil {
+				return
+			}
+			for _, l := range lines {
+				w.Write([]byte(l))
+			}
+			<-release
+			w.Close()
+		}()
+	}
+	defer restore()
+	defer close(release)
+	ports := ""
+	if c.Input != "fifo-ipport" {
+		ports = "80,81"
+	}
+	var did int32
+	doCancel := func() {
+		if atomic.CompareAndSwapInt32(&did, 0, 1) {
+			cancel()
+		}
+	}
+	out := &recOut{clock: clock}
+	real, _ := log.NewLogger(out, "rig", log.JSON())
+	logger := &recLogger{inner: real, clock: clock}
+	var engine scan.EngineResulter
+	rng := &scan.Range{SrcIP: rigSrcIP, SrcMAC: rigSrcMAC}
+	if c.Engine == "generic" {
+		o := &genericScanCmdOpts{ipFile: ipFile, workers: 4, json: true, rawPortRanges: ports}
+		if err := o.parseRawOptions(); err != nil {
+			run.Inconclusive("options: " + err.Error())
+			return
+		}
+		rng.Ports = o.portRanges
+		sc := newRecScanner(uint64(c.Seed), 300, 100, 0, clock)
+		sc.onStart = func(k int, _ context.Context) {
+			if k == c.M {
+				doCancel()
+			}
+		}
+		engine = o.newScanEngine(ctx, sc)
+	} else {
+		o := &tcpCmdOpts{}
+		o.ipFile, o.rawPortRanges = ipFile, ports
+		if err := o.parseRawOptions(); err != nil {
+			run.Inconclusive("options: " + err.Error())
+			return
+		}
+		o.scanRange = rng
+		rng.Ports = o.portRanges
+		o.vpnMode = true
+		rw := newRecRW(oracle.LinkRawIP, uint64(c.Seed), 0, 0, clock)
+		rw.readMode = 1
+		defer rw.closeRead()
+		rw.onWrite = func(k int) {
+			if k == c.M {
+				doCancel()
+			}
+		}
+		m := o.newTCPScanMethod(ctx, withTCPScanName("tcpsyn"), withTCPPacketFillerOptions(tcp.WithSYN()), withTCPPacketFilterFunc(tcp.TrueFilter), withTCPPacketFlags(tcp.EmptyFlags))
+		engine = scan.SetupPacketEngine(rw, m)
+	}
+	if c.M == 0 {
+		go func() { time.Sleep(50 * time.Millisecond); doCancel() }()
+	} else {
+		// safety net: if the m-th event never comes (e.g. the whole input is awaited first), cancel anyway
+		go func() { time.Sleep(500 * time.Millisecond); doCancel() }()
+	}
+	conf := newEngineConfig(withLogger(logger), withScanRange(rng), withExitDelay(20*time.Millisecond))
+	dump, finished, parked := run.Watch(8*time.Second, "v-byte-cpu/sx/", func() {
+		_ = startScanEngine(ctx, engine, conf)
+	})
+	run.Eval(1)
+	if !finished {
+		if parked {
+			run.Violation("cancel-deadlock:stalled-input:"+c.Input, fmt.Sprintf("startScanEngine did not return after cancellation while the target list (%s) was stalled after %d lines; all sx goroutines parked: %+v", c.Input, c.M, c), map[string]interface{}{"case": c, "stacks": dump})
+		} else {
+			run.Inconclusive(fmt.Sprintf("scan still running, goroutines not parked: %+v", c))
+		}
+		return
+	}
+	run.Count("cancel:stalled-input", 1)
+	run.Count("cancellations_delivered", 1)
+}
+
+func TestVerifC12Stalled(t *testing.T) {
+	run := vlab.Begin(t, "C12", "stalled")
+	defer run.End()
+	dir := t.TempDir()
+	var cases []c12stallCase
+	for r := 0; r < run.Pick(2, 12); r++ {
+		for _, e := range []string{"generic", "packet"} {
+			for _, in := range []string{"fifo-ipport", "fifo-addr", "stdin-addr"} {
+				for _, m := range []int{0, 1, 5, 40} {
+					cases = append(cases, c12stallCase{Engine: e, Input: in, M: m, Seed: int64(r*1000 + m)})
+				}
+			}
+		}
+	}
+	for i, c := range cases {
+		if !run.Mine(i) {
+			continue
+		}
+		run.Case(fmt.Sprintf("stall%04d", i), c)
+		c12stalled(run, dir, i, c)
+		run.Distinct(fmt.Sprintf("%+v", c))
+	}
 }
